@@ -270,6 +270,14 @@ pub fn check_variadic_type_compact(context: &mut TypeCheckContext, source_type: 
 
 //@@include c16_laws/laws.rs
 
+// ---- the property-level clauses that do NOT hold on every tree sit on a second copy of the dispatch function (same real text), so that
+// ---- no other contract is ever proved from them through the recursive calls
+pub mod c16_every {
+    use super::*;
+//@@ every::check_general_type_compact
+}
+//@@gen dedupe_hyp
+
 //@@include c16_laws/union.rs
 
 //@@include c16_laws/subtype.rs
